@@ -103,6 +103,8 @@ class MemTransport(asyncio.Transport):
         if self.closing:
             return
         self.closing = True
+        if self._loop.is_closed():
+            return      # StreamWriter.__del__ closes transports of connections that were left open when the loop was closed
         self.inflight.append(('eof',))
         self._loop.wire_changed(self)
         self._loop.call_soon(self._lost, None)
